@@ -444,9 +444,10 @@ class MProcess(QOperation):
     ) -> np.ndarray:
         dim = c_sys.dim
 
-        # var to hss
-        hss = convert_var_to_hss(
-            c_sys, var, on_para_eq_constraint=on_para_eq_constraint
+        # var to hss (a private copy: without the parametrised constraint the
+        # conversion returns reshaped views of ``var``, whose rows are updated below)
+        hss = copy.deepcopy(
+            convert_var_to_hss(c_sys, var, on_para_eq_constraint=on_para_eq_constraint)
         )
 
         # calc new var
